@@ -85,11 +85,17 @@ let run_case line =
   let raw = List.filter (fun s -> String.trim s <> "") (String.split_on_char ';' body) in
   let items = List.filter_map parse_item raw in
   let has_g = List.exists (fun s -> match words s with "G" :: _ -> true | _ -> false) raw in
+  let is_lab w = String.length w > 0 && w.[0] = 'L' in
   let addrs = List.filter_map (fun w ->
       match String.split_on_char ':' w with
-      | [i; a] -> Some (int_of_string i, z_of_hex a)
+      | [i; a] when not (is_lab i) -> Some (int_of_string i, z_of_hex a)
+      | _ -> None) (words oracle) in
+  let labs = List.filter_map (fun w ->
+      match String.split_on_char ':' w with
+      | [i; a] when is_lab i -> Some (int_of_string (String.sub i 1 (String.length i - 1)), z_of_hex a)
       | _ -> None) (words oracle) in
   let base n = try List.assoc (int_of_nat n) addrs with Not_found -> Z0 in
+  let lab n = try List.assoc (int_of_nat n) labs with Not_found -> Z0 in
   let lay = layout items in
   let b = Buffer.create 1024 in
   match load_check items with
@@ -105,7 +111,7 @@ let run_case line =
       | Some pl when int_of_nat pl.p_head = i ->
         let h = nat_of_int i in
         let alloc = int_of_nat (sec_alloc items h) in
-        let img = image base items h in
+        let img = image base lab items h in
         Buffer.add_string b (Printf.sprintf " %d:%d/%d:" i alloc (List.length img));
         let n = ref 0 in
         List.iter (fun c -> incr n; match c with
